@@ -27,8 +27,8 @@ TEXT = {
          'Loop-free or width-bounded (<= 10 iterations, unwinding assertions on) harnesses over full domains are complete proofs. format! on error paths is stubbed. Strings, bytes, repeated, packed, maps, messages, groups and generated messages are not covered.'),
  'C06': ('Kani: the scalar harnesses of C05 compare the bytes produced with the encoding prescribed by the declared type (ZigZag for sint32/sint64, little-endian fixed widths, 64-bit sign extension of negative int32, wire type per type) computed by an independent reference written from the protobuf encoding document. Verus (unit pbgen): the two match tables of pilota-build that select the codec module per .proto scalar type (lower_ty in the parser, ty_module in the code generator) are extracted as verbatim fragments and proved to select, for all 15 scalar types, the module the language guide prescribes (this found G7, fixed).',
          'Repeated/map/oneof positions of the generator, map entry layout and generated message bodies are not covered (emitted text). packed+unpacked acceptance only by a bounded harness (thorough tier).'),
- 'C07': ('The recursive default skipper and the async default skipper are each verified by Verus as a generic function over any reader meeting a reader contract, against a recursive grammar of Thrift binary values (bskip_val: structs, lists, sets, maps nested to the depth limit): Ok(n) <=> the input starts with a well-formed value of that wire type occupying n bytes, and exactly those bytes are consumed; Err <=> it does not; depth 0 => Err; termination with depth as measure. Refinement obligations prove TBinaryProtocol<&mut Bytes> and TAsyncBinaryProtocol<R> (both byte orders) implement those reader contracts with their real bodies. The compact reader used to inherit the fixed-width skipper (G4, fixed): its own skipper is verified against a recursive grammar of compact-protocol values (cskip_val) with the reader state (field-id stack, last id, pending bool) restored; the missing uuid arm of the async skipper (G5) was found by this proof and is fixed.',
-         'The iterative unchecked skipper (unsafe pointer reads, SmallVec stack) is not under contract. The async skipper over the compact reader is not verified against a compact grammar. "Whatever follows is decoded as if the value had never been there" holds for stateless binary readers by the consumption equality; for the compact reader state it is not decided.'),
+ 'C07': ('The recursive default skipper and the async default skipper are each verified by Verus as a generic function over any reader meeting a reader contract, against a recursive grammar of Thrift binary values (bskip_val: structs, lists, sets, maps nested to the depth limit): Ok(n) <=> the input starts with a well-formed value of that wire type occupying n bytes, and exactly those bytes are consumed; Err <=> it does not; depth 0 => Err; termination with depth as measure. Refinement obligations prove TBinaryProtocol<&mut Bytes> and TAsyncBinaryProtocol<R> (both byte orders) implement those reader contracts with their real bodies. The async skipper is verified a second time over the compact reader contract, against the compact grammar, with the refinement obligation for TAsyncCompactProtocol<R>. The compact reader used to inherit the fixed-width skipper (G4, fixed): its own skipper is verified against a recursive grammar of compact-protocol values (cskip_val) with the reader state (field-id stack, last id, pending bool) restored; the missing uuid arm of the async skipper (G5) was found by this proof and is fixed.',
+         'The iterative unchecked skipper (unsafe pointer reads, SmallVec stack) is not under contract. "Whatever follows is decoded as if the value had never been there" holds for stateless binary readers by the consumption equality; for the compact reader state it is not decided.'),
  'C09': ('All sync and async readers of the three safe protocols, both default skippers and the shared async length-prefixed read are verified with no precondition on buffer content: Verus discharges every panic!, expect/unwrap, index, arithmetic-overflow and dependency panic precondition (Bytes::split_to, Buf::advance, copy_to_slice) in the extracted bodies, every loop has a decreases clause, and every allocation site carries an obligation bounding the request by the bytes available (plus at most 64 KiB for stream readers). Err-side contracts state that an input without a complete value is rejected.',
          'Generated decoders (container preallocation from the wire count in emitted code) are outside reach: emitted text. Stack depth is bounded by the depth argument of the skippers only; generated recursive decoders are not covered.'),
  'C10': ('Verus (unit prost, real bodies of pilota/src/prost/encoding.rs): decode_varint (dispatch + slow-path loop, whose shift-and-or accumulation is proved equal to the base-128 value), decode_key, check_wire_type, WireType::try_from and the DecodeContext recursion budget are verified functionally and totally: Ok(v) <=> the input starts with a well-formed varint / key per the protobuf encoding guide, v is its value, exactly its bytes are consumed, no panic on any input. skip_field (rule D18) is verified against a recursive grammar of unknown fields (pskip/pgroup): Ok <=> the input starts with a well-formed field payload (groups closed by the end-group key of their own field number, nested to the recursion budget; a length prefix beyond the input is rejected before advancing), exactly its bytes are consumed, termination with the budget as measure. The unsafe unrolled decode_varint_slice is proved by complete Kani harnesses on every input of up to 11 bytes (bounds, value, length); decode_varint on non-contiguous buffers by pb_varint_chain.',
